@@ -18,6 +18,9 @@ namespace ArmiVerif.PyInt
 /-- Python `abs` on ints -/
 def pyAbs (x : Int) : Int := if x < 0 then -x else x
 
+/-- Python `int(x)` (truncation toward zero) of the half-integer `x = I/2` -/
+def pyTruncHalf (I : Int) : Int := if 0 ≤ I then I / 2 else -((-I) / 2)
+
 /-- Python `sum` of a list of ints -/
 def pySum (l : List Int) : Int := l.sum
 
